@@ -2,14 +2,18 @@
 //
 // Every case works on three objects placed by placement-new in the middle of heap arenas that are
 // pre-filled with a guard pattern: `s` (capacity L, the object under test), `t` (capacity L, source
-// for the same-type overloads and swap partner) and `u` (capacity SU = 9, source for the
-// `template< size_t S>` overloads).  After every operation the guards of all three objects are
+// for the same-type overloads and swap partner) and `u` (capacity SU = 9 after `new <L>`, or the
+// capacity named by `new <L> <S>` for the pairs instantiated at the end of this file; source for the
+// `template< size_t S>` overloads, S > 255 / > 65535 gives FixedString arguments longer than the length
+// type of `s` can count).  After every operation the guards of all three objects are
 // checked (C10 oracle: `!! guard ...`), the object must be well-formed (`!! wf ...`), and the
 // result is printed next to what the same operation does on a real std::string holding the same
 // text, cut off at the capacity (`e.*` fields, C11 oracle; compared by the plugin's judge when the
 // model says the arguments are inside the documented domain).
 //
-// The file is compiled once per group of capacities (-DFS_PART=k), see tools/comp_fixedstring.py.
+// Source arguments (`s:`/`c:` tokens) are hex, optionally in segments `<hex>+<hex pattern>x<count>` (decodeSrc).
+//
+// The file is compiled once per capacity (-DFS_PART=k), see tools/comp_fixedstring.py.
 #include "common.hpp"
 #include <algorithm>
 #include <cstdint>
@@ -26,22 +30,26 @@ struct IBox {
    virtual std::string exec(const std::vector<std::string>& t) = 0;
 };
 
-IBox* make_box_part0(size_t L);
-IBox* make_box_part1(size_t L);
-IBox* make_box_part2(size_t L);
-IBox* make_box_part3(size_t L);
-IBox* make_box_part4(size_t L);
-IBox* make_box_part5(size_t L);
-IBox* make_box_part6(size_t L);
-IBox* make_box_part7(size_t L);
-IBox* make_box_part8(size_t L);
-IBox* make_box_part9(size_t L);
-IBox* make_box_part10(size_t L);
-IBox* make_box_part11(size_t L);
-IBox* make_box_part12(size_t L);
-IBox* make_box_part13(size_t L);
-IBox* make_box_part14(size_t L);
-IBox* make_box_part15(size_t L);
+// one factory per translation unit; `su` = capacity of the `u` source object (`new <L>` means su = 9)
+IBox* make_box_part0(size_t L, size_t su);
+IBox* make_box_part1(size_t L, size_t su);
+IBox* make_box_part2(size_t L, size_t su);
+IBox* make_box_part3(size_t L, size_t su);
+IBox* make_box_part4(size_t L, size_t su);
+IBox* make_box_part5(size_t L, size_t su);
+IBox* make_box_part6(size_t L, size_t su);
+IBox* make_box_part7(size_t L, size_t su);
+IBox* make_box_part8(size_t L, size_t su);
+IBox* make_box_part9(size_t L, size_t su);
+IBox* make_box_part10(size_t L, size_t su);
+IBox* make_box_part11(size_t L, size_t su);
+IBox* make_box_part12(size_t L, size_t su);
+IBox* make_box_part13(size_t L, size_t su);
+IBox* make_box_part14(size_t L, size_t su);
+IBox* make_box_part15(size_t L, size_t su);
+IBox* make_box_part16(size_t L, size_t su);
+IBox* make_box_part17(size_t L, size_t su);
+IBox* make_box_part18(size_t L, size_t su);
 
 #ifndef FS_PART
 #define FS_PART 0
@@ -51,7 +59,7 @@ IBox* make_box_part15(size_t L);
 namespace {
 
 constexpr size_t GUARD = 4096;
-constexpr size_t SU = 9;
+constexpr size_t SU_DEFAULT = 9;
 
 inline unsigned char pat(size_t i) { return static_cast<unsigned char>(0x80u | ((i * 7u + 3u) & 0x7fu)); }
 
@@ -129,7 +137,38 @@ inline std::initializer_list<char> ilist(size_t k) {
    }
 }
 
-template <size_t L> struct Box : public IBox {
+/// source argument payload: `-` (empty) or segments joined by `+`; a segment is `<hex bytes>` or
+/// `<hex pattern>x<count>` = the pattern repeated cyclically up to exactly <count> bytes (count <= 2^20).
+/// Lets 300- or 70000-byte arguments be written in a few characters; Drivers/FixedString.lean decodes the same.
+inline bool decodeSrc(const std::string& s, std::string& out) {
+   out.clear();
+   if (s == "-") return true;
+   size_t i = 0;
+   for (;;) {
+      size_t j = s.find('+', i);
+      std::string seg = s.substr(i, j == std::string::npos ? std::string::npos : j - i);
+      size_t x = seg.find('x');
+      std::string pat;
+      if (x == std::string::npos) {
+         if (seg.empty() || seg == "-" || !vh::hexDecodeStr(seg, pat)) return false;
+         out += pat;
+      } else {
+         std::string h = seg.substr(0, x), n = seg.substr(x + 1);
+         if (h.empty() || h == "-" || !vh::hexDecodeStr(h, pat) || pat.empty()) return false;
+         if (n.empty() || n.size() > 7) return false;
+         size_t cnt = 0;
+         for (char c : n) { if (c < '0' || c > '9') return false; cnt = cnt * 10 + static_cast<size_t>(c - '0'); }
+         if (cnt > (1u << 20)) return false;
+         out.reserve(out.size() + cnt);
+         for (size_t k = 0; k < cnt; ++k) out.push_back(pat[k % pat.size()]);
+      }
+      if (j == std::string::npos) break;
+      i = j + 1;
+   }
+   return true;
+}
+
+template <size_t L, size_t SU = SU_DEFAULT> struct Box : public IBox {
    using FS = FixedString<L>;
    using FU = FixedString<SU>;
    using CI = typename FS::const_iterator;
@@ -172,7 +211,7 @@ template <size_t L> struct Box : public IBox {
       const std::string& tk = A->at(i);
       if (tk.compare(0, 2, pfx) != 0) throw BadOp();
       std::string out;
-      if (!vh::hexDecodeStr(tk.substr(2), out)) throw BadOp();
+      if (!decodeSrc(tk.substr(2), out)) throw BadOp();
       return out;
    }
    /// C string argument: the bytes given plus a terminating NUL, allocated at exact size
@@ -600,7 +639,9 @@ template <size_t L> struct Box : public IBox {
 }  // namespace
 
 #define MAKE1(FN, LA)                                            \
-   IBox* FN(size_t L) { return (L == LA) ? new Box<LA>() : nullptr; }
+   IBox* FN(size_t L, size_t su) { return (L == LA && su == SU_DEFAULT) ? new Box<LA>() : nullptr; }
+#define MAKE2(FN, LA, SA)                                        \
+   IBox* FN(size_t L, size_t su) { return (L == LA && su == SA) ? new Box<LA, SA>() : nullptr; }
 
 #if FS_PART == 0 || defined(FS_ALL)
 MAKE1(make_box_part0, 1)
@@ -651,19 +692,32 @@ MAKE1(make_box_part14, 65535)
 MAKE1(make_box_part15, 65536)
 #endif
 
+// capacities of `u` beyond the width of the length type of `s` (arguments of type FixedString<S> that are
+// longer than 255 / 65535 characters)
+#if FS_PART == 16 || defined(FS_ALL)
+MAKE2(make_box_part16, 15, 300)
+#endif
+#if FS_PART == 17 || defined(FS_ALL)
+MAKE2(make_box_part17, 255, 600)
+#endif
+#if FS_PART == 18 || defined(FS_ALL)
+MAKE2(make_box_part18, 256, 70000)
+#endif
+
 #if FS_PART == 0
 int main() {
    std::unique_ptr<IBox> box;
    return vh::run([&](const std::vector<std::string>& t, const std::string&) -> std::string {
       if (t.size() == 2 && t[0] == "case") { box.reset(); return "ok"; }
-      if (t.size() == 2 && t[0] == "new") {
-         size_t L = std::stoull(t[1]);
+      if ((t.size() == 2 || t.size() == 3) && t[0] == "new") {
+         size_t L = 0, su = SU_DEFAULT;
+         try { L = std::stoull(t[1]); if (t.size() == 3) su = std::stoull(t[2]); } catch (const std::exception&) { return "bad-op"; }
          IBox* b = nullptr;
          for (auto f : {make_box_part0, make_box_part1, make_box_part2, make_box_part3, make_box_part4,
                         make_box_part5, make_box_part6, make_box_part7, make_box_part8, make_box_part9,
                         make_box_part10, make_box_part11, make_box_part12, make_box_part13, make_box_part14,
-                        make_box_part15})
-            if (!b) b = f(L);
+                        make_box_part15, make_box_part16, make_box_part17, make_box_part18})
+            if (!b) b = f(L, su);
          box.reset(b);
          return b ? "ok" : "bad-op";
       }
